@@ -150,7 +150,74 @@ SPLIT_TEXT = ("for ConstructorSet::Bool / Product / Unlistable and every head co
               "is non-empty, else missing; Unlistable: present = the column and missing = [Wildcard(NonExhaustive)] iff the column holds no wildcard")
 
 
+def cli_redundancy_standin():
+    """Bounded stand-in for the part of the checker that is NOT under contract (construction of the pattern matrix from the AST,
+    the usefulness recursion): every match of two free arms + a catch-all over a two-bool record (named patterns in both field orders,
+    positional patterns) and over a (bool, bool) tuple, on the real CLI.  Oracle written from the property statement: an arm is redundant
+    iff every value it matches is matched by an earlier arm (the type has four values); the compiler must report 'redundant cases'
+    iff some arm is redundant."""
+    import itertools
+    import time
+    t0 = time.time()
+    pats = ["true", "false", "_"]
+
+    def matches(p, v):
+        return p == "_" or (p == "true") == v
+
+    def arm_set(pa, pb):
+        return {(a, b) for a in (True, False) for b in (True, False) if matches(pa, a) and matches(pb, b)}
+
+    spell = {
+        "named_ab": lambda pa, pb: "Flags(a = %s, b = %s)" % (pa, pb),
+        "named_ba": lambda pa, pb: "Flags(b = %s, a = %s)" % (pb, pa),
+        "positional": lambda pa, pb: "Flags(%s, %s)" % (pa, pb),
+        "tuple": lambda pa, pb: "(%s, %s)" % (pa, pb),
+    }
+    cases = []
+    arms = list(itertools.product(pats, pats))
+    for (a1, a2) in itertools.product(arms, arms):
+        s1, s2 = arm_set(*a1), arm_set(*a2)
+        red = [not s1, s2 <= s1, (s1 | s2) == arm_set("_", "_")]
+        any_red = any(red)
+        for k1, k2 in (("named_ab", "named_ba"), ("named_ba", "named_ab"), ("positional", "named_ba"), ("tuple", "tuple")):
+            tup = k1 == "tuple"
+            last = "(_, _)" if tup else "Flags(a = _, b = _)"
+            body = "    match x {\n        %s -> 1\n        %s -> 2\n        %s -> 3\n    }\n" % (spell[k1](*a1), spell[k2](*a2), last)
+            if tup:
+                prog = "fn f(x: (bool, bool)) -> int {\n%s}\nprintln(f((true, false)))\n" % body
+            else:
+                prog = "type Flags = {\n    a: bool\n    b: bool\n}\nfn f(x: Flags) -> int {\n%s}\nprintln(f(Flags(true, false)))\n" % body
+            cases.append((prog, any_red, (k1, a1, k2, a2)))
+    mism = []
+    for prog, any_red, key in cases:
+        out, err, rc = abra_cli.run_program(prog)
+        txt = re.sub(r'\x1b\[[0-9;]*m', '', out + err)
+        if "panicked at" in txt:
+            mism.append("compiler panic on %r" % (key,))
+        else:
+            reported = "redundant cases" in txt
+            if reported != any_red:
+                mism.append("%s: arms %s then %s: the compiler %s a redundant arm, the value model says %s" % (
+                    "tuple" if key[0] == "tuple" else "record", spell[key[0]](*key[1]), spell[key[2]](*key[3]),
+                    "reports" if reported else "does not report", "there is one" if any_red else "every arm is reachable"))
+        if len(mism) >= 6:
+            break
+    return E.Obligation("C13.cli.redundancy.sampled", ["C13"], UNIT, "match redundancy check (whole checker) via the real CLI", "bounded: run on the real CLI",
+                        E.FAILED if mism else E.DISCHARGED, "; ".join(mism[:4]), time.time() - t0, "abra_core/src/statics/pat_exhaustiveness.rs", "",
+                        "%d matches: two free arms over {true, false, _}^2 + a catch-all, scrutinee a two-bool record (named patterns in both field "
+                        "orders, positional) or a (bool, bool) tuple; black-box stand-in, not a proof" % len(cases),
+                        "the compiler reports redundant cases iff some arm matches no value that is not already matched by an earlier arm (four-value model)")
+
+
 def run(tier="quick"):
+    obs, info = _run_leaves(tier)
+    if os.environ.get("ABRA_VERIF_PROP") in (None, "", "C13"):
+        obs.append(cli_redundancy_standin())
+        info['assumptions'] = list(info.get('assumptions', [])) + ["U14: `C13.cli.redundancy.sampled` is a sampled black-box run on the real CLI (324 matches), bounded, not a proof"]
+    return obs, info
+
+
+def _run_leaves(tier="quick"):
     maxlen = 6 if tier == "thorough" else 5
     sc = E.Scratch("u14")
     try:
@@ -241,6 +308,8 @@ def replay(ob):
     `match s1 { s1 -> .., s2 -> .., _ -> .. }` has an unreachable second arm; the real checker must report
     'redundant cases'.  Confirmed iff it accepts the program silently (and, as a control, rejects the same program
     with s2 spelled exactly like s1)."""
+    if ob.id == "C13.cli.redundancy.sampled":
+        return (True if ob.status == E.FAILED else None), dict(note="the obligation itself is a run on the real CLI; the failing match is in verifier_output")
     if ob.id != "C13.ctor.is_covered_by.literal_equality":
         return None, dict(note="no CLI replay for this obligation")
     same_pairs, diff_pairs = [], []
